@@ -46,6 +46,7 @@ type Contract struct {
 	NoInline bool
 	Unverified string // non-empty: the body is not verified against the contract (assumed); reason
 	GhostInc []string // ghost counters incremented by one on entry (ghost code of the function)
+	GhostIncSite []string // counters incremented only where an interface contract is applied at a dynamic call
 	GhostSet map[string]int64 // ghost variables set on entry
 	Implements []string       // interface-method contracts whose clauses this function inherits
 	Alias    map[string]int    // extra parameter names (of inherited clauses) -> parameter index
@@ -191,14 +192,14 @@ func (e *Engine) loadContractFile(path, pkgShort string) error {
 			t = strings.TrimSpace(t[:j])
 		}
 		if isSpec {
-			if j := strings.Index(t, "  # "); j >= 0 {
+			if j := strings.Index(t, " # "); j >= 0 {
 				t = strings.TrimSpace(t[:j])
 			}
 		}
 		lines = append(lines, logical{t, i + 1})
 	}
 	isStart := func(s string) bool {
-		for _, k := range []string{"func ", "trusted func ", "interface ", "spec ", "ghostvar ", "requires", "ensures", "modifies", "loop ", "ghost ", "also", "pure", "noinline", "inline", "ghostinc ", "ghostset ", "implements ", "unverified", "witness ", "lemma ", "assert", "at "} {
+		for _, k := range []string{"func ", "trusted func ", "interface ", "spec ", "ghostvar ", "propset ", "requires", "ensures", "modifies", "loop ", "ghost ", "also", "pure", "noinline", "inline", "ghostinc_callsite ", "ghostinc ", "ghostset ", "implements ", "unverified", "witness ", "lemma ", "assert", "at "} {
 			if strings.HasPrefix(s, k) {
 				return true
 			}
@@ -220,6 +221,12 @@ func (e *Engine) loadContractFile(path, pkgShort string) error {
 	for _, l := range joined {
 		t := l.text
 		switch {
+		case strings.HasPrefix(t, "propset "):
+			w := strings.Fields(t)
+			if len(w) == 3 && w[2] == "all" {
+				e.propAll[w[1]] = true
+			}
+			cur = nil
 		case strings.HasPrefix(t, "ghostvar "):
 			w := strings.Fields(t)
 			if len(w) != 3 {
@@ -303,6 +310,8 @@ func (e *Engine) loadContractFile(path, pkgShort string) error {
 				cur.GhostSet = map[string]int64{}
 			}
 			cur.GhostSet[w[1]] = int64(n)
+		case strings.HasPrefix(t, "ghostinc_callsite "):
+			cur.GhostIncSite = append(cur.GhostIncSite, strings.TrimSpace(t[len("ghostinc_callsite "):]))
 		case strings.HasPrefix(t, "ghostinc "):
 			cur.GhostInc = append(cur.GhostInc, strings.TrimSpace(t[len("ghostinc "):]))
 		case t == "noinline":
@@ -449,9 +458,10 @@ func (e *Engine) resolveImplements() error {
 			c.Modifies = append(c.Modifies, ic.Modifies...)
 			// ghost counters the interface contract increments at call sites may change inside an
 			// implementation through nested calls of the same interface
-			for _, g := range ic.GhostInc {
+			for _, g := range ic.GhostIncSite {
 				c.Modifies = append(c.Modifies, &EField{&EIdent{"ghost"}, g})
 			}
+			c.GhostInc = append(c.GhostInc, ic.GhostInc...)
 		}
 	}
 	return nil
